@@ -24,7 +24,7 @@ def check(ctx):
         nb = ctx.rng.choice([1, 2, 8, 40])
         probe = ctx.rng.choice([0, 1, 5, 30])
         delay = ctx.rng.choice([0, 5, 50, 500, 3000, 20000, 1010000 if i % 12 == 0 else 100])
-        eps.append(["stop %d %d %d %d %d" % (nb, probe, delay, ctx.rng.choice([1, 1, 2, 4]), i % 2)])
+        eps.append(["stop %d %d %d %d %d" % (nb, probe, delay, ctx.rng.choice([1, 1, 2, 4]), i % 3)])
 
     def orc(ep, outs):
         o = outs[0] if outs else ""
